@@ -1083,14 +1083,19 @@ def near_valid(prog, rng, which=None):
         a, b = rng.sample(tasks, 2)
         a["body"].append({"k": "call", "name": b["name"], "ins": [], "outs": []})
         b["body"].append({"k": "call", "name": a["name"], "ins": [], "outs": []})
-    elif kind == "mutual_recursion_below_start" and len([x for x in tasks if x["name"] != "productionTask" and not x.get("ins")]) >= 2:
-        # a cycle of two tasks that lies below the production task (which is not on the cycle) and is reached from it
-        cand = [x for x in tasks if x["name"] != "productionTask" and not x.get("ins")]
-        a, b = rng.sample(cand, 2)
-        a["body"].append({"k": "call", "name": b["name"], "ins": [], "outs": []})
-        b["body"].insert(rng.randint(0, len(b["body"])), {"k": "call", "name": a["name"], "ins": [], "outs": []})
-        top = next(x for x in tasks if x["name"] == "productionTask")
-        top["body"].append({"k": "call", "name": a["name"], "ins": [], "outs": []})
+    elif kind == "mutual_recursion_below_start":
+        # a cycle of two (new, parameterless) tasks that lies below the production task, which is not on the cycle
+        na, nb = "cycleTaskA", "cycleTaskB"
+        pos = rng.choice(["first", "last"])
+        ta = {"name": na, "ins": [], "outs": [], "body": [{"k": "svc", "name": "StepA", "ins": [], "outs": []},
+                                                           {"k": "call", "name": nb, "ins": [], "outs": []}]}
+        tb = {"name": nb, "ins": [], "outs": [], "body": [{"k": "call", "name": na, "ins": [], "outs": []}] if pos == "first" else
+              [{"k": "svc", "name": "StepB", "ins": [], "outs": []}, {"k": "call", "name": na, "ins": [], "outs": []}]}
+        tasks.extend([ta, tb])
+        top = next((x for x in tasks if x["name"] == "productionTask"), None)
+        for caller in ([tasks[0]] + ([top] if top is not None and top is not tasks[0] else [])):
+            # reached from the task that is declared first, and from the production task
+            caller["body"].append({"k": "call", "name": na, "ins": [], "outs": []})
     elif kind == "recursion_in_parallel_loop":
         t = rng.choice([x for x in tasks if not x.get("ins")] or tasks)
         t["body"].append({"k": "ploop", "var": "zq", "limit": 1, "call": {"k": "call", "name": t["name"], "ins": [], "outs": []}})
